@@ -130,6 +130,8 @@ def main(argv):
         ctx._rec('ENGINE', 'fixture', 'VIOLATION', str(e)[-800:], None, 'ENGINE:fixture')
     mod = importlib.import_module('sa.props.' + pid.lower())
     try:
+        from . import selftest
+        selftest.run(ctx)
         mod.run(ctx)
     except Exception:
         tb = traceback.format_exc()
